@@ -31,15 +31,18 @@ type RAcct struct {
 }
 
 type RCase struct {
-	Rk     string      `json:"rk"` // "rewards" | "attenuated"
-	Time   uint64      `json:"time"`
-	Steps  [][2]string `json:"steps"` // [until, scale]
-	Min    string      `json:"min"`
-	Common string      `json:"common"`
-	Factor string      `json:"factor"`
-	Num    int         `json:"num,omitempty"`
-	Den    int         `json:"den,omitempty"`
-	Accts  []RAcct     `json:"accts"`
+	Rk      string      `json:"rk"`                // "rewards" | "attenuated" | "tfc" (TransferFromCommon on the first account)
+	Amount  string      `json:"amount,omitempty"`  // tfc: requested amount
+	Escrow  bool        `json:"escrow,omitempty"`  // tfc: escrow flag
+	General string      `json:"general,omitempty"` // tfc: general balance of the account
+	Time    uint64      `json:"time"`
+	Steps   [][2]string `json:"steps"` // [until, scale]
+	Min     string      `json:"min"`
+	Common  string      `json:"common"`
+	Factor  string      `json:"factor"`
+	Num     int         `json:"num,omitempty"`
+	Den     int         `json:"den,omitempty"`
+	Accts   []RAcct     `json:"accts"`
 }
 
 func pairList(ps [][2]string) string {
@@ -65,7 +68,7 @@ func runReward(c RCase) (res apiResult) {
 			res.violated = fmt.Sprintf(f, a...)
 		}
 	}
-	appState := abciAPI.NewMockApplicationState(&abciAPI.MockApplicationStateConfig{})
+	appState := abciAPI.NewMockApplicationState(&abciAPI.MockApplicationStateConfig{CurrentEpoch: beacon.EpochTime(c.Time)})
 	ctx := appState.NewContext(abciAPI.ContextEndBlock)
 	defer ctx.Close()
 	st := stakingState.NewMutableState(ctx.State())
@@ -92,6 +95,9 @@ func runReward(c RCase) (res apiResult) {
 		addrs = append(addrs, addr)
 		var acct staking.Account
 		acct.Escrow.Active = *poolOf(bi(a.B), bi(a.S))
+		if i == 0 && c.Rk == "tfc" {
+			acct.General.Balance = *qs(c.General)
+		}
 		for _, r := range a.Rates {
 			acct.Escrow.CommissionSchedule.Rates = append(acct.Escrow.CommissionSchedule.Rates,
 				staking.CommissionRateStep{Start: beacon.EpochTime(bi(r[0]).Uint64()), Rate: *qs(r[1])})
@@ -111,6 +117,13 @@ func runReward(c RCase) (res apiResult) {
 		} else {
 			rates = append(rates, rt.ToBigInt())
 		}
+	}
+	if c.Rk == "tfc" {
+		out := runTfc(c, st, ctx, addrs[0], before[0], selfBefore[0], rates[0], res, viol)
+		if res.violated != "" {
+			out.violated = res.violated // viol() records into the named result
+		}
+		return out
 	}
 	var err error
 	nObs := len(addrs)
@@ -225,7 +238,7 @@ func runReward(c RCase) (res apiResult) {
 	for _, a := range c.Accts {
 		at = append(at, fmt.Sprintf("(%s, %s, %s, %s)", a.B, a.S, a.Self, pairList(a.Rates)))
 	}
-	res.coq = fmt.Sprintf("(mkRC %s %s %d %s %s %s %s %s %s, (%s, %s))",
+	res.coq = fmt.Sprintf("(mkRC %s %s %d %s %s %s %s %s %s None, (%s, %s))",
 		staking.RewardAmountDenominator.ToBigInt(), staking.CommissionRateDenominator.ToBigInt(),
 		c.Time, pairList(c.Steps), c.Min, c.Common, c.Factor, att, coqout.List(at), cls, coqout.List(nums))
 	if !strings.HasPrefix(cls, "C") {
@@ -234,7 +247,170 @@ func runReward(c RCase) (res apiResult) {
 	return res
 }
 
+// runTfc runs the real TransferFromCommon on the first account and evaluates
+// the fairness predicates on its outcome.
+func runTfc(c RCase, st *stakingState.MutableState, ctx *abciAPI.Context, addr staking.Address, before *staking.SharePool,
+	selfBefore, rate *big.Int, res apiResult, viol func(string, ...any)) apiResult {
+	amount, common, general := bi(c.Amount), bi(c.Common), bi(c.General)
+	moved, err := st.TransferFromCommon(ctx, addr, qOf(amount), c.Escrow)
+	cls := errClass(err)
+	a2, e2 := st.Account(ctx, addr)
+	if e2 != nil {
+		panic(e2)
+	}
+	d2, e3 := st.Delegation(ctx, addr, addr)
+	if e3 != nil {
+		panic(e3)
+	}
+	cp, e4 := st.CommonPool(ctx)
+	if e4 != nil {
+		panic(e4)
+	}
+	nb, ns, self2 := a2.Escrow.Active.Balance.ToBigInt(), a2.Escrow.Active.TotalShares.ToBigInt(), d2.Shares.ToBigInt()
+	g2, cp2 := a2.General.Balance.ToBigInt(), cp.ToBigInt()
+	B, S := before.Balance.ToBigInt(), before.TotalShares.ToBigInt()
+	kind := "normal"
+	switch {
+	case B.Sign() == 0 && S.Sign() == 0:
+		kind = "fresh"
+	case B.Sign() == 0:
+		kind = "slashed-to-zero-with-shares"
+	case S.Sign() == 0:
+		kind = "balance-without-shares"
+	}
+	esc := "plain"
+	if c.Escrow {
+		esc = "escrow"
+	}
+	res.stats = append(res.stats, "tfc:"+esc+"-"+kind+"-"+cls)
+	// ---- S
+	t := new(big.Int).Set(amount)
+	if common.Cmp(t) < 0 {
+		t = new(big.Int).Set(common)
+	}
+	after := &a2.Escrow.Active
+	if add(add(g2, nb), cp2).Cmp(add(add(general, B), common)) != 0 {
+		viol("TransferFromCommon: general+escrow+common pool changed from %s to %s", add(add(general, B), common), add(add(g2, nb), cp2))
+	}
+	if err != nil || t.Sign() == 0 {
+		if g2.Cmp(general) != 0 || nb.Cmp(B) != 0 || ns.Cmp(S) != 0 || cp2.Cmp(common) != 0 || moved {
+			viol("TransferFromCommon without a transfer (err=%v) changed the ledger", err)
+		}
+	} else {
+		if !moved || sub(common, cp2).Cmp(t) != 0 {
+			viol("TransferFromCommon took %s from the common pool, expected min(amount, common pool) = %s", sub(common, cp2), t)
+		}
+		minted := sub(self2, selfBefore)
+		if sub(ns, S).Cmp(minted) != 0 || minted.Sign() < 0 {
+			viol("TransferFromCommon: total shares grew by %s, the entity's delegation by %s", sub(ns, S), minted)
+		}
+		if !c.Escrow {
+			if sub(g2, general).Cmp(t) != 0 || nb.Cmp(B) != 0 || minted.Sign() != 0 {
+				viol("TransferFromCommon(escrow=false) must credit the general balance only")
+			}
+		} else {
+			if S.Sign() > 0 && mul(B, ns).Cmp(mul(nb, S)) > 0 {
+				viol("TransferFromCommon: share price fell")
+			}
+			for _, u := range []*big.Int{big.NewInt(1), new(big.Int).Rsh(S, 1), S, selfBefore} {
+				if worth(before, u).Cmp(worth(after, u)) > 0 {
+					viol("TransferFromCommon: a holder's %s shares fell from %s to %s", u, worth(before, u), worth(after, u))
+				}
+			}
+			if S.Sign() > 0 {
+				// the entity gets exactly the commission share; the rest belongs to the holders pro rata
+				com := new(big.Int).Quo(mul(t, rate), staking.CommissionRateDenominator.ToBigInt())
+				rest := sub(t, com)
+				if sub(nb, B).Cmp(rest) < 0 {
+					viol("TransferFromCommon(escrow) of %s at commission rate %s to a pool (%s, %s): the pool balance grew by %s, the holders' non-commission part is %s", t, rate, B, S, sub(nb, B), rest)
+				}
+				if liquid := sub(g2, general); liquid.Sign() != 0 && !(liquid.Cmp(com) == 0 && nb.Sign() == 0) {
+					viol("TransferFromCommon(escrow): %s stayed in the general balance (commission %s, pool balance after %s)", liquid, com, nb)
+				}
+				if minted.Sign() > 0 {
+					if w := worth(after, minted); w.Cmp(com) > 0 {
+						viol("TransferFromCommon: commission shares worth %s exceed the commission %s", w, com)
+					}
+					res.nontriv = true
+				}
+				// every holder can redeem at least its part of balance + rest
+				for _, u := range []*big.Int{new(big.Int).Rsh(S, 1), S} {
+					if want := new(big.Int).Quo(mul(u, add(B, rest)), S); worth(after, u).Cmp(want) < 0 {
+						viol("TransferFromCommon(escrow): %s of %s shares are worth %s after a reward of %s (commission %s) to a pool with balance %s, pro rata would be %s", u, S, worth(after, u), t, com, B, want)
+					}
+				}
+			} else if sub(nb, B).Cmp(t) != 0 || minted.Cmp(t) != 0 {
+				viol("TransferFromCommon(escrow) to a pool without shares must deposit everything as commission 1:1")
+			}
+		}
+	}
+	at := fmt.Sprintf("(%s, %s, %s, %s)", c.Accts[0].B, c.Accts[0].S, c.Accts[0].Self, pairList(c.Accts[0].Rates))
+	e := "false"
+	if c.Escrow {
+		e = "true"
+	}
+	res.coq = fmt.Sprintf("(mkRC %s %s %d %s %s %s 0 None [%s] (Some (%s, %s, %s)), (%s, [%s; %s; %s; %s; %s]))",
+		staking.RewardAmountDenominator.ToBigInt(), staking.CommissionRateDenominator.ToBigInt(),
+		c.Time, pairList(c.Steps), c.Min, c.Common, at, c.Amount, e, c.General, cls, nb, ns, self2, g2, cp2)
+	if !strings.HasPrefix(cls, "C") {
+		viol("unexpected error: %s", cls)
+	}
+	return res
+}
+
+func genTfc(r *prng.R) RCase {
+	c := RCase{Rk: "tfc", Time: uint64(r.Range(0, 20)), Steps: [][2]string{}, Factor: "0", Escrow: !r.Chance(20)}
+	c.Min = []string{"0", "0", "50000", "100000"}[r.Intn(4)]
+	var B, S *big.Int
+	switch r.Intn(8) {
+	case 0:
+		B, S = big.NewInt(0), big.NewInt(0) // fresh
+	case 1, 2:
+		B, S = big.NewInt(0), big.NewInt(int64(r.Range(1, 500))) // slashed to zero, shares outstanding
+		if r.Chance(20) {
+			S = pick(r)
+			if S.Sign() == 0 {
+				S = big.NewInt(7)
+			}
+		}
+	case 3:
+		B, S = big.NewInt(int64(r.Range(1, 500))), big.NewInt(0) // balance without shares
+	case 4:
+		B = pick(r)
+		S = near(r, B)
+	default:
+		B, S = big.NewInt(int64(r.Range(1, 5000))), big.NewInt(int64(r.Range(1, 5000)))
+	}
+	self := new(big.Int).Mod(new(big.Int).SetBytes(r.Bytes(33)), add(S, big.NewInt(1)))
+	a := RAcct{B: B.String(), S: S.String(), Self: self.String(), Rates: [][2]string{}}
+	if !r.Chance(15) {
+		rv := []string{"0", "50000", "100000", "20000", "1", "99999"}[r.Intn(6)]
+		a.Rates = append(a.Rates, [2]string{fmt.Sprint(r.Intn(int(c.Time) + 2)), rv})
+	}
+	c.Accts = []RAcct{a}
+	c.General = fmt.Sprint(r.Intn(50))
+	amt := big.NewInt(int64(r.Range(0, 400)))
+	if r.Chance(15) {
+		amt = pick(r)
+	}
+	c.Amount = amt.String()
+	switch r.Intn(6) {
+	case 0:
+		c.Common = "0"
+	case 1:
+		c.Common = near(r, amt).String()
+	case 2:
+		c.Common = new(big.Int).Rsh(amt, 1).String()
+	default:
+		c.Common = add(amt, big.NewInt(int64(r.Intn(100000)))).String()
+	}
+	return c
+}
+
 func genReward(r *prng.R) RCase {
+	if r.Chance(35) {
+		return genTfc(r)
+	}
 	c := RCase{Rk: "rewards", Time: uint64(r.Range(0, 45))}
 	if r.Chance(35) {
 		c.Rk = "attenuated"
@@ -325,11 +501,16 @@ func genReward(r *prng.R) RCase {
 func rewardMode(seed uint64, n int, out string, replayed []RCase) {
 	hdr := "From Verif Require Import Lib.Base Ledger.SharePool Ledger.Rewards.\n"
 	wb := coqout.NewWriter(out, hdr, "run_reward", "rout_eqb", 400)
-	sum := coqout.NewSummary("seeded calls of the real AddRewards (1..3 addresses sharing the common pool) and AddRewardSingleAttenuated (numerator 0..12, denominator 1..12) with reward schedules of 0..3 steps (scales 0,1,1000,2000,50000,10^8), factors 0..99 / <3*10^6 / 10^8 / 2^64..2^256-scale, commission schedules of 0..3 steps with rates 0,1,20%,50%,99.999%,100% and (15%) above 100%, minimum rates 0/5%/100%, pools small, 64-bit and 2^128..2^256-scale, common pools poor / near the total / rich; non-trivial = commission shares were minted on a pool with shares; distinct = distinct case descriptions")
+	sum := coqout.NewSummary("seeded calls of the real AddRewards (1..3 addresses sharing the common pool) and AddRewardSingleAttenuated (numerator 0..12, denominator 1..12) with reward schedules of 0..3 steps (scales 0,1,1000,2000,50000,10^8), factors 0..99 / <3*10^6 / 10^8 / 2^64..2^256-scale, commission schedules of 0..3 steps with rates 0,1,20%,50%,99.999%,100% and (15%) above 100%, minimum rates 0/5%/100%, pools small, 64-bit and 2^128..2^256-scale, common pools poor / near the total / rich; 35% of the cases are TransferFromCommon(escrow true 80% / false) on one account: amounts 0..400 or big against common pools of 0 / half / near / above the amount, commission rate steps 0, 1, 20%, 50%, 99.999%, 100% or none (minimum rate 0 / 50% / 100%), pools fresh (0,0), normal, slashed to zero with shares outstanding, balance without shares, 2^64..2^256-scale; non-trivial = commission shares were minted on a pool with shares; distinct = distinct case descriptions")
 	cases := replayed
 	if cases == nil {
 		cases = append(cases, RCase{Rk: "rewards", Time: 10, Steps: [][2]string{{"30", "1000"}, {"40", "500"}}, Min: "0", Common: "10000", Factor: "100000",
 			Accts: []RAcct{{B: "300", S: "300", Self: "100", Rates: [][2]string{{"0", "20000"}}}}})
+		// a pool slashed to zero with shares outstanding, rewarded with escrow at 20% / 100% commission
+		for _, rv := range []string{"20000", "100000", "0"} {
+			cases = append(cases, RCase{Rk: "tfc", Time: 3, Steps: [][2]string{}, Min: "0", Common: "1000", Factor: "0", Amount: "100", Escrow: true, General: "0",
+				Accts: []RAcct{{B: "0", S: "200", Self: "50", Rates: [][2]string{{"0", rv}}}}})
+		}
 		r := prng.New(seed)
 		for i := 0; i < n; i++ {
 			cases = append(cases, genReward(r.Fork()))
